@@ -151,7 +151,9 @@ func genStreamScenario(r *rng, sid string, maxPIDs, maxUnits int) streamScenario
 	pids = append(pids, &pidState{pid: 0, role: "pat"})
 	npmt := r.intn(3)
 	for i := 0; i < npmt; i++ {
-		p := []int{0x1000, 0x1001, 0x30}[i]
+		// PMT PIDs: ordinary ones, and PIDs of the DVB service-information range (H.222.0 allows any PID; ATSC carries a PMT on 0x10):
+		// such a PID is PSI for the demuxer anyway, and still has to be learnt from the PAT to be flushed on completion
+		p := [][]int{{0x1000, 0x1000, 0x1e, 0x13}, {0x1001, 0x1001, 0x1f}, {0x30}}[i][r.intn([]int{4, 3, 1}[i])]
 		sc.PMTPIDs = append(sc.PMTPIDs, p)
 		pids = append(pids, &pidState{pid: p, role: "pmt"})
 	}
